@@ -18,6 +18,87 @@ structure ValueRT where
 def u32 (v : Int) : Prop := 0 ≤ v ∧ v < 4294967296
 def u64 (v : Int) : Prop := 0 ≤ v ∧ v < 18446744073709551616
 
+theorem run_decList (w : Nat) (enc : α → Bytes) (dec : P α) (wf : α → Prop)
+    (rt : ∀ x r, wf x → P.run dec (enc x ++ r) = some (x, r))
+    (xs : List α) (r : Bytes) (hl : inRange w (xs.length : Int)) (h : ∀ x ∈ xs, wf x) :
+    P.run (decList w dec) (encList w enc xs ++ r) = some (xs, r) := by
+  unfold decList encList
+  rw [List.append_assoc, P.run_bind_some _ _ _ _ _ (run_rdI w (xs.length : Int) _ hl)]
+  have : ¬ ((xs.length : Int) < 0) := by omega
+  simp only [this, if_false, Int.toNat_natCast]
+  exact run_decMany enc dec wf rt xs r h
+
+theorem run_map_some (f : α → β) (p : P α) (bs r : Bytes) (a : α) (h : P.run p bs = some (a, r)) :
+    P.run (P.map f p) bs = some (f a, r) := by
+  unfold P.map
+  rw [P.run_bind_some _ _ _ _ _ h]; rfl
+
+/-- typed lists: the count fits 3 signed bytes; ints/longs are int64, floats/doubles bit patterns -/
+def anyListWF : Val → Prop
+  | .ints (t :: xs) => xs.length < 8388608 ∧
+      ((t = 1 ∨ t = 2) ∧ (∀ x ∈ xs, inRange 8 x) ∨ t = 3 ∧ (∀ x ∈ xs, u32 x) ∨ t = 4 ∧ (∀ x ∈ xs, u64 x))
+  | .strs xs => xs.length < 8388608 ∧ ∀ x ∈ xs, x.length < 2147483648
+  | _ => False
+
+theorem listU_rt (w : Nat) (xs : List Int) (r : Bytes) (hl : xs.length < 8388608)
+    (_h0 : ∀ x ∈ xs, 0 ≤ x) (h1 : ∀ x ∈ xs, x.toNat < 256 ^ w) :
+    P.run (decList 3 (rdU w)) (encList 3 (fun v : Int => beN w v.toNat) xs ++ r) = some (xs.map Int.toNat, r) := by
+  have e : encList 3 (fun v : Int => beN w v.toNat) xs = encList 3 (beN w) (xs.map Int.toNat) := by
+    unfold encList
+    have : ∀ ys : List Int, encMany (fun v : Int => beN w v.toNat) ys = encMany (beN w) (ys.map Int.toNat) := by
+      intro ys; induction ys with
+      | nil => rfl
+      | cons y ys ih => simp [encMany, ih]
+    rw [this]; simp
+  rw [e]
+  exact run_decList 3 (beN w) (rdU w) (fun n => n < 256 ^ w) (fun n r h => run_rdU w n r h)
+    (xs.map Int.toNat) r ((inRange_3 _).mpr (by simp; omega))
+    (by intro n hn; simp only [List.mem_map] at hn; obtain ⟨x, hx, rfl⟩ := hn; exact h1 x hx)
+
+theorem map_toNat_ofNat' (xs : List Int) (h : ∀ x ∈ xs, 0 ≤ x) :
+    (xs.map Int.toNat).map Int.ofNat = xs := by
+  induction xs with
+  | nil => rfl
+  | cons x xs ih =>
+    simp only [List.map_cons]
+    rw [ih (fun y hy => h y (by simp [hy]))]
+    congr 1
+    exact Int.toNat_of_nonneg (h x (by simp))
+
+theorem anyList_rt (v : Val) (r : Bytes) (h : anyListWF v) :
+    P.run decAnyList (encAnyList v ++ r) = some (v, r) := by
+  cases v with
+  | ints ys =>
+    cases ys with
+    | nil => simp [anyListWF] at h
+    | cons t xs =>
+      obtain ⟨hl, hc⟩ := h
+      have hlen : inRange 3 (xs.length : Int) := (inRange_3 _).mpr (by omega)
+      rcases hc with ⟨ht, hx⟩ | ⟨rfl, hx⟩ | ⟨rfl, hx⟩
+      · rcases ht with rfl | rfl
+        · simp only [encAnyList, decAnyList, List.cons_append, P.run_read1, List.headD_cons]
+          exact run_map_some _ _ _ _ _ (run_decList 3 encDecimal decDecimal (inRange 8)
+            (fun x r h => run_decDecimal x r h) xs r hlen hx)
+        · simp only [encAnyList, decAnyList, List.cons_append, P.run_read1, List.headD_cons]
+          exact run_map_some _ _ _ _ _ (run_decList 3 encDecimal decDecimal (inRange 8)
+            (fun x r h => run_decDecimal x r h) xs r hlen hx)
+      · simp only [encAnyList, decAnyList, List.cons_append, P.run_read1, List.headD_cons]
+        rw [run_map_some _ _ _ _ _ (listU_rt 4 xs r hl (fun x hx' => (hx x hx').1)
+          (fun x hx' => by have := (hx x hx').2; show x.toNat < 4294967296; omega))]
+        rw [map_toNat_ofNat' xs (fun x hx' => (hx x hx').1)]
+      · simp only [encAnyList, decAnyList, List.cons_append, P.run_read1, List.headD_cons]
+        rw [run_map_some _ _ _ _ _ (listU_rt 8 xs r hl (fun x hx' => (hx x hx').1)
+          (fun x hx' => by have := (hx x hx').2; show x.toNat < 18446744073709551616; omega))]
+        rw [map_toNat_ofNat' xs (fun x hx' => (hx x hx').1)]
+  | strs xs =>
+    obtain ⟨hl, hx⟩ := h
+    simp only [encAnyList, decAnyList, List.cons_append, P.run_read1, List.headD_cons]
+    exact run_map_some _ _ _ _ _ (run_decList 3 encBlob decBlob (fun b => b.length < 2147483648)
+      (fun x r h => run_decBlob x r h) xs r ((inRange_3 _).mpr (by omega)) hx)
+  | int _ => simp [anyListWF] at h
+  | bytes _ => simp [anyListWF] at h
+  | value _ => simp [anyListWF] at h
+
 namespace Prim
 
 /-- the guards the real code needs for a value to travel through a primitive unchanged -/
@@ -43,6 +124,10 @@ def wf (vr : ValueRT) : Prim → Val → Prop
   | .imapV, .value v => vr.wf v ∧ ∃ kvs, v = .imap kvs
   | .mapBody, .value v => vr.wf v ∧ ∃ kvs, v = .map kvs
   | .imapBody, .value v => vr.wf v ∧ ∃ kvs, v = .imap kvs
+  | .u16, .int v => 0 ≤ v ∧ v < 65536
+  | .a8I16, .ints xs => xs.length ≤ 255 ∧ ∀ x ∈ xs, inRange 2 x
+  | .b24, .bytes bs => bs.length < 8388608
+  | .anylist, v => anyListWF v
   | _, _ => False
 
 theorem ofP_rt (p : P α) (f : α → Val) (bs r : Bytes) (a : α) (h : P.run p (bs ++ r) = some (a, r)) :
@@ -130,6 +215,27 @@ theorem rt (vr : ValueRT) (p : Prim) (v : Val) (r : Bytes) (h : wf vr p v) :
     have := vr.rt _ r hw
     rw [Value.encV] at this ⊢
     simpa using this
+  case u16.int v =>
+    have e : encI 2 v = beN 2 v.toNat := by
+      unfold encI toU
+      rw [modulus_2, Int.emod_eq_of_lt h.1 (by omega)]
+    rw [e]
+    exact toNat_rt_u 2 v r h.1 (by have := h.2; show v.toNat < 65536; omega)
+  case a8I16.ints xs =>
+    apply ofP_rt
+    rw [List.append_assoc, P.run_bind_some _ _ _ _ _ (run_rdU 1 xs.length _ (by have := h.1; show xs.length < 256; omega))]
+    exact run_decMany (encI 2) (rdI 2) (inRange 2) (fun x r h => run_rdI 2 x r h) xs r h.2
+  case anylist.int => exact ofP_rt _ _ _ _ _ (anyList_rt _ r h)
+  case anylist.bytes => exact ofP_rt _ _ _ _ _ (anyList_rt _ r h)
+  case anylist.ints => exact ofP_rt _ _ _ _ _ (anyList_rt _ r h)
+  case anylist.strs => exact ofP_rt _ _ _ _ _ (anyList_rt _ r h)
+  case anylist.value => exact ofP_rt _ _ _ _ _ (anyList_rt _ r h)
+  case b24.bytes bs =>
+    apply ofP_rt
+    rw [List.append_assoc, P.run_bind_some _ _ _ _ _ (run_rdI 3 (bs.length : Int) _ ((inRange_3 _).mpr (by omega)))]
+    have : ¬ ((bs.length : Int) < 0) := by omega
+    simp only [this, if_false, Int.toNat_natCast]
+    exact run_rdBytes bs r
 
 /-- a tagged map is its tag byte followed by the untagged body -/
 def untag : Prim → Option Prim
